@@ -12,7 +12,7 @@
 (*          event before it (twin runs: C02 determinism, C09, C17, C18)    *)
 (*   "C19"  ledger monitors on the live-allocation counts                  *)
 (***************************************************************************)
-EXTENDS Responder, Json, IOUtils, TLC, TLCExt
+EXTENDS Mechanism, Json, IOUtils, TLC, TLCExt
 
 CONSTANT Primary    \* the property whose antecedent is counted for the evidence
 
@@ -28,7 +28,7 @@ vars == << l, sts, cfgs, aux >>
 Ifcs == 1..8
 
 NoCfg == [own |-> << >>, mtu |-> 0, attrs |-> [wifi |-> 0], data |-> << >>]
-NoAux == [resetLive |-> 0 - 1, resetBytes |-> 0 - 1, fixed |-> << >>, expect |-> {}]
+NoAux == [resetLive |-> 0 - 1, resetBytes |-> 0 - 1, fixed |-> << >>, expect |-> {}, mech |-> MInit, mok |-> TRUE]
 
 TraceInit ==
   /\ l = 1
@@ -120,6 +120,43 @@ IsQueryResp(req, out) ==
 PeerReportOK(req, a, out) ==
   IsQueryResp(req, out) => (~Frames(out)[1].more => a.expect \subseteq DescSet(Frames(out)[1]))
 
+(* ---------------------------------------------------------------- XIMPL: the mechanism, state for state    *)
+(* Beyond the listed properties: the recorded execution is compared with Mechanism!MStep - the state the     *)
+(* record holds after every request (mapper binding, apparent address, sequence number, both generations,    *)
+(* icon cache flag, the observation list IN ORDER) and every item of the reaction (pauses, frames with all    *)
+(* their abstract fields; a Hello's property list is C04's business).  A fault, or a flood the monitor does   *)
+(* not follow, suspends the comparison until the next fault-free topology Reset.                              *)
+MechClean(ev) == FaultOf(ev) = 0 /\ ev.gf = 0 /\ ev.flt = 0
+SeeTriples(see) == [i \in 1..Len(see) |-> see[i].rs \o see[i].es \o see[i].ed]
+MechAgree(m, s) ==
+  IF s.has = 0 THEN m = MInit
+  ELSE /\ m.known = (s.known # 0)
+       /\ m.known => (m.real = s.real /\ m.app = s.app)
+       /\ m.seq = s.seq /\ m.genT = s.gt /\ m.genQ = s.gq
+       /\ m.icon = (s.icon # 0)
+       /\ Len(m.see) = s.nlist /\ s.nsee = s.nlist
+       /\ s.nlist = Len(s.see) => SeeTriples(m.see) = s.see
+ProjItem(x) == IF x.k = "s" THEN [k |-> "s", ms |-> x.ms]
+               ELSE [k |-> "t", rc |-> x.rc,
+                     f |-> [x.f EXCEPT !.n = IF x.f.op = OpHello THEN 0 ELSE @, !.tlvs = << >>, !.why = "", !.wf = TRUE,
+                                   !.more = IF x.f.op \in {OpQueryResp, OpQueryLargeResp} THEN @ ELSE FALSE]]
+ProjOut(o) == [i \in 1..Len(o) |-> ProjItem(o[i])]
+MechOK(cfg, ev, req, out, a) ==
+  (a.mok /\ MechClean(ev)) =>
+     LET res == MStep(cfg, a.mech, req)
+         ok1 == MechAgree(res.st, ev.st)
+         ok2 == ProjOut(out) = ProjOut(res.out)
+     IN IF ok1 /\ ok2 THEN TRUE
+        ELSE /\ PrintT(<< "XIMPL-DIFF", "state", ok1, "out", ok2, "model", [res.st EXCEPT !.see = Len(@)], "real", [ev.st EXCEPT !.see = Len(@)],
+                         "modelout", ProjOut(res.out), "realout", ProjOut(out) >>)
+             /\ FALSE
+MechNext(cfg, ev, req, a) ==
+  IF ~Chk("XIMPL") THEN a
+  ELSE IF ~MechClean(ev) THEN [a EXCEPT !.mok = FALSE]
+  ELSE IF a.mok THEN [a EXCEPT !.mech = MStep(cfg, a.mech, req).st]
+  ELSE IF IsTopoReset(req) THEN [a EXCEPT !.mech = MInit, !.mok = TRUE]
+  ELSE a
+
 AuxNext(ev, req, a0, out) ==
   \* C07 lets "a Reset" discard the record; for the quick-discovery Reset the general spec leaves both open
   \* (freedom), so an expectation does not survive a Reset of either service
@@ -185,7 +222,9 @@ TReq ==
           /\ Chk("SNAP") => AgreeSnap(nx, ev.st)
           /\ sts' = [sts EXCEPT ![ev.ifc] = nx]
           /\ (Exercised(cfg, st, req, out) => TLCSet(2, TLCGet(2) \cup {l}))
-     /\ aux' = [aux EXCEPT ![ev.ifc] = AuxNext(ev, req, aux[ev.ifc], out)]
+     /\ Chk("XIMPL") => MechOK(cfg, ev, req, out, aux[ev.ifc])
+     /\ (Primary = "XIMPL" /\ aux[ev.ifc].mok /\ MechClean(ev) => TLCSet(2, TLCGet(2) \cup {l}))
+     /\ aux' = [aux EXCEPT ![ev.ifc] = MechNext(cfg, ev, req, AuxNext(ev, req, aux[ev.ifc], out))]
      /\ l' = l + 1
      /\ UNCHANGED cfgs
 
@@ -199,8 +238,9 @@ TFlood ==
   /\ (Chk("C19") => TLCSet(2, TLCGet(2) \cup {l}))
   \* the monitor does not follow the observation set through a flood; a Reset must follow
   /\ sts' = [sts EXCEPT ![ev.ifc] = [@ EXCEPT !.havoc = TRUE]]
+  /\ aux' = [aux EXCEPT ![ev.ifc] = [@ EXCEPT !.mok = FALSE]]
   /\ l' = l + 1
-  /\ UNCHANGED << cfgs, aux >>
+  /\ UNCHANGED cfgs
 
 TraceNext == l <= Len(Log) /\ (TBoot \/ TSkip \/ TReq \/ TFlood)
 
